@@ -43,6 +43,8 @@ def write_and_run(pid, ob, plan, ctx):
             body = None
         if body:
             break
+    if not body:
+        body = generic_contract_replay(ob)
     head = HEADER % {"pid": pid, "name": ob.name, "where": ob.where, "kind": ob.kind,
                      "model": json.dumps(ob.model, indent=1, default=str)}
     for w in (ob.meta or {}).get("witness", []) or []:
@@ -69,6 +71,58 @@ def write_and_run(pid, ob, plan, ctx):
         for ln in out.strip().splitlines()[-30:]:
             f.write("# " + ln + "\n")
     return path, reproduced, out
+
+
+GENERIC = r'''
+import sys
+sys.path.insert(0, %(native)r)
+import qvc_native as Q
+CONTRACT = %(contract)s
+FUNCTION = %(function)r
+FOCUS = %(focus)r
+singles = MODEL.get("__singletons__") or {}
+restore = []
+if "Manager" in singles and singles["Manager"]:
+    from quantarhei.core.managers import Manager
+    m = Manager()
+    for f, v in (singles["Manager"].get("fields") or {}).items():
+        if f in ("log_conf",):
+            continue
+        restore.append((m, f, getattr(m, f, None), hasattr(m, f)))
+        setattr(m, f, Q.build(v))
+MODEL["__raises__"] = CONTRACT.get("raises") or {}
+try:
+    rc = Q.replay_contract(MODEL, FUNCTION, CONTRACT["requires"], CONTRACT["ensures"],
+                           ghost_code=CONTRACT.get("native_ghost") or "", focus=FOCUS)
+finally:
+    for (o, f, old, had) in reversed(restore):
+        if had:
+            setattr(o, f, old)
+        else:
+            try:
+                delattr(o, f)
+            except Exception:
+                pass
+sys.exit(rc)
+'''
+
+
+def generic_contract_replay(ob):
+    """replay of a function contract on the counter-model: real function, real arguments rebuilt from the model,
+    every `ensures` clause evaluated natively (works for functions whose arguments are numbers, arrays and objects
+    whose state is a set of plain attributes)"""
+    meta = ob.meta or {}
+    c = meta.get("contract")
+    fn = meta.get("function")
+    if not c or not fn or not isinstance(ob.model, dict) or "__args__" not in ob.model:
+        return None
+    if ".<locals>." in fn:
+        return None
+    focus = None
+    if ob.name.startswith("post:"):
+        focus = ob.name.split(":")[2].split("@")[0]
+    return GENERIC % {"native": os.path.join(VERIF, "native"), "contract": json.dumps(c), "function": fn,
+                      "focus": focus}
 
 
 def write_bounded(pid, r1):
